@@ -211,24 +211,24 @@ def work_inproc(item, col):
 # -- cross-interpreter pairs ----------------------------------------------------------------------------
 
 
-def attribute_cross(job):
-    base = run_sub([job], "0", dict(CROSS[0][1], vclock=True))["results"]
-    again = run_sub([job], "0", dict(CROSS[0][1], vclock=True))["results"]
+def attribute_cross(job, hs_other, pert_other):
+    """Delta-debug a difference between interpreter 0 and interpreter `hs_other`: one source at a time, virtual clock."""
+    p0 = CROSS[0][1]
+    base = run_sub([job], "0", dict(p0, vclock=True))["results"]
+    again = run_sub([job], "0", dict(p0, vclock=True))["results"]
     k = D.job_key(*job)
     kinds, info = [], {}
     if _diff(base[k], again[k]):
         return [K_REPEAT], {K_REPEAT: _diff(base[k], again[k])}
-    h = run_sub([job], CROSS[1][0], dict(CROSS[0][1], vclock=True))["results"]
-    if not _diff(base[k], h[k]):
-        h = run_sub([job], CROSS[2][0], dict(CROSS[0][1], vclock=True))["results"]
+    h = run_sub([job], hs_other, dict(p0, vclock=True))["results"]
     if _diff(base[k], h[k]):
         kinds.append(K_HASH)
         info[K_HASH] = _diff(base[k], h[k])
-    g = run_sub([job], "0", dict(glob=CROSS[1][1]["glob"], shift=0.0, vclock=True))["results"]
+    g = run_sub([job], "0", dict(glob=pert_other["glob"], shift=p0["shift"], vclock=True))["results"]
     if _diff(base[k], g[k]):
         kinds.append(K_GLOB)
         info[K_GLOB] = _diff(base[k], g[k])
-    c = run_sub([job], "0", dict(glob=CROSS[0][1]["glob"], shift=SHIFT, vclock=True))["results"]
+    c = run_sub([job], "0", dict(glob=p0["glob"], shift=pert_other["shift"], vclock=True))["results"]
     if _diff(base[k], c[k]):
         kinds.append(K_CLOCK)
         info[K_CLOCK] = _diff(base[k], c[k])
@@ -269,7 +269,7 @@ def work_cross(item, col):
             if not d:
                 col.outcome("cross_interpreter_pairs_equal")
                 continue
-            kinds, info = attribute_cross(job)
+            kinds, info = attribute_cross(job, hs, pert)
             _report(col, name, kinds, dict(routine=name, script=sid, seed=s, net_seed=net_seed, pair=f"PYTHONHASHSEED 0 vs {hs}",
                                            components_that_differ=d, attribution=info, perturbation_a=CROSS[0][1], perturbation_b=pert,
                                            meta_a=a["meta"], meta_b=b["meta"]))
